@@ -93,14 +93,30 @@ def step (d : DSt) (toks : List String) : DSt × String :=
       | some q =>
         let d := learn d q.p.bytes
         if !d.alive then (d, "dead") else
-        match arg? toks "kill" with
-        | none =>
+        match arg? toks "kill", arg? toks "fail" with
+        | none, some spec =>
+          -- write-error injection in a child process: "fsize:<n>" always cuts the record, "short:<k>" cuts it iff k > 0
+          match spec.splitOn ":" with
+          | [kind, ns] =>
+            match ns.toNat? with
+            | none => (d, "bad-op fail")
+            | some n =>
+              let fails := kind == "fsize" || (kind == "short" && n > 0)
+              let s' := finishFail fails n 32 (Model.FilePV.step d.s (.req q))
+              let d' := { d with s := s' }
+              let ans := match s'.out.head? with
+                | some (_, .panicked) => s!"failed disk={showRec d.table s'.disk}"
+                | some (_, o) => showOutcome d' o
+                | none => "bad-op no-outcome"
+              ({ d' with s := Model.FilePV.step s' .crash }, ans)
+          | _ => (d, "bad-op fail")
+        | none, none =>
           let s' := call d.s q
           let d' := { d with s := s' }
           match s'.out.head? with
           | some (_, o) => (d', showOutcome d' o)
           | none => (d', "bad-op no-outcome")
-        | some _ =>
+        | some _, _ =>
           match parseKill toks with
           | none => (d, "bad-op kill")
           | some (name, n) =>
